@@ -1,7 +1,10 @@
 ------------------------------ MODULE GenNames ------------------------------
 EXTENDS Integers, Sequences, FiniteSets, TLC, Json
 Kinds == {"range", "le", "ge", "eq"}
-RowSeqs == {<<"range", "le">>, <<"eq", "range", "ge">>, <<"le", "ge", "eq", "range">>, <<"range", "range">>, <<"ge", "eq">>}
+\* "free": a linear row without finite bounds (AMPL writes them, e.g. for rows that only carry a name / a dual):
+\* nothing is posted for it, and the rows after it keep their own names and values
+RowSeqs == {<<"range", "le">>, <<"eq", "range", "ge">>, <<"le", "ge", "eq", "range">>, <<"range", "range">>, <<"ge", "eq">>,
+            <<"free", "ge", "le">>, <<"eq", "free", "range">>}
 Extras == {"none", "abs", "logic", "abs+logic",
            "sos1", "sos2+abs",
            "ite", "ite+max",
